@@ -401,7 +401,10 @@ func join(a, b context, node parse.Node, nodeName string) context {
 	//   <p title={{if .C}}{{.}}{{end}}
 	// ends in an unquoted value state even though the else branch
 	// ends in stateBeforeValue.
-	if c, d := nudge(a), nudge(b); !(c.eq(a) && d.eq(b)) {
+	// A branch that ends before an attribute value is not joined with one that ends inside
+	// the unquoted value: in `<a title={{if .C}}x{{end}} class="{{.X}}">` an HTML parser
+	// takes `class="...` for the value of title if the branch is not taken.
+	if c, d := nudge(a), nudge(b); !(c.eq(a) && d.eq(b)) && a.state != stateBeforeValue && b.state != stateBeforeValue {
 		if e := join(c, d, node, nodeName); e.state != stateError {
 			return e
 		}
